@@ -17,7 +17,7 @@ out = ["# Seeded changes: which check catches which", "",
        "rc 1 = the check printed VIOLATION lines (replay-confirmed); rc 0 = held; rc 2 = tool error.", "",
        "| change | check | rc | violation signatures |", "|---|---|---|---|"]
 for (seed, pid), (rc, n, sig, run) in sorted(rows.items()):
-    out.append("| %s | %s | %d | %s |" % (seed.replace("/tmp/seeds2/", "round2:"), pid, rc, sig or "-"))
+    out.append("| %s | %s | %d | %s |" % (seed.replace("/tmp/seeds2/", "round2:").replace("/tmp/seeds3/", "round3:"), pid, rc, sig or "-"))
 open("/verif/seeded/RESULTS.md", "w").write("\n".join(out) + "\n")
 # record the outcome next to each change
 for (seed, pid), (rc, n, sig, run) in rows.items():
@@ -25,6 +25,9 @@ for (seed, pid), (rc, n, sig, run) in rows.items():
     if seed.startswith("/tmp/seeds2/"):
         a, b = seed[len("/tmp/seeds2/"):].split("/")
         d = "/verif/seeded/%sr2_%s" % (a, b)
+    if seed.startswith("/tmp/seeds3/"):
+        a, b = seed[len("/tmp/seeds3/"):].split("/")
+        d = "/verif/seeded/%sr3_%s" % (a, b)
     if seed.startswith("reverts/"):
         d = "/verif/seeded/revert_" + seed.split("/")[1]
         os.makedirs(d, exist_ok=True)
